@@ -23,6 +23,7 @@ func C12(r *core.Run) {
 	provEnumNumbers(r)
 	enumNumberingAgrees(r)
 	valueNamePrefixGuard(r)
+	rules.FillEvery(r, []string{convRel}) // the list of an in / not_in rule holds the numbers of the named options and nothing else
 	requiredPropagation(r)
 	ruleConstants(r)
 	arrayItems(r)
